@@ -54,6 +54,51 @@ Theorem isort_perm_invariant l l' :
 Proof. intros Ha Hp. apply sorted_perm_unique; try apply isort_sorted.
   - intros a b Hia Hib. apply Ha; eapply Permutation_in; try apply Permutation_sym, isort_perm; auto.
   - eapply perm_trans; [apply Permutation_sym, isort_perm|]. eapply perm_trans; [exact Hp|]. apply isort_perm. Qed.
+
+(* stability: elements that compare equal keep their relative order, so the result is determined by the
+   multiset and by the order inside every class of equal keys *)
+Definition same (a b : A) : bool := leb a b && leb b a.
+
+Lemma insert_filter x y : forall l,
+  filter (same x) (insert leb y l) = if same x y then y :: filter (same x) l else filter (same x) l.
+Proof. induction l as [|z r IH]; cbn [insert filter].
+  - destruct (same x y); reflexivity.
+  - destruct (leb y z) eqn:E; cbn [filter]; [destruct (same x y); reflexivity|].
+    rewrite IH. destruct (same x y) eqn:Exy; [|reflexivity].
+    assert (Hz : same x z = false).
+    { destruct (same x z) eqn:Exz; [|reflexivity]. unfold same in *.
+      apply andb_prop in Exy. apply andb_prop in Exz. destruct Exy as [_ Hyx], Exz as [Hxz _].
+      rewrite (leb_trans _ _ _ Hyx Hxz) in E. discriminate. }
+    rewrite Hz. reflexivity. Qed.
+
+Lemma isort_filter x : forall l, filter (same x) (isort leb l) = filter (same x) l.
+Proof. induction l as [|y r IH]; cbn [isort filter]; [reflexivity|]. rewrite insert_filter, IH. reflexivity. Qed.
+
+Lemma same_refl a : same a a = true.
+Proof. unfold same. destruct (leb_total a a) as [H|H]; rewrite H; reflexivity. Qed.
+
+Lemma sorted_stable_unique : forall l l', StronglySorted le l -> StronglySorted le l' -> Permutation l l' ->
+  (forall x, filter (same x) l = filter (same x) l') -> l = l'.
+Proof. induction l as [|x r IH]; intros l' Hs Hs' Hp Hf.
+  - apply Permutation_nil in Hp. auto.
+  - destruct l' as [|y r']; [apply Permutation_sym, Permutation_nil in Hp; discriminate|].
+    inversion Hs as [|? ? Hr Hx]; subst. inversion Hs' as [|? ? Hr' Hy]; subst.
+    assert (Hxy : same x y = true).
+    { assert (Hxin : In x (y :: r')) by (eapply Permutation_in; eauto; left; auto).
+      assert (Hyin : In y (x :: r)) by (eapply Permutation_in; [apply Permutation_sym; eauto|left; auto]).
+      destruct Hxin as [->|Hxin]; [apply same_refl|]. destruct Hyin as [->|Hyin]; [apply same_refl|].
+      rewrite Forall_forall in *. unfold same. rewrite (Hx _ Hyin), (Hy _ Hxin). reflexivity. }
+    assert (x = y).
+    { pose proof (Hf x) as H. cbn [filter] in H. rewrite same_refl, Hxy in H. congruence. }
+    subst y. f_equal. apply IH; auto.
+    + eapply Permutation_cons_inv; eauto.
+    + intros z. pose proof (Hf z) as H. cbn [filter] in H. destruct (same z x); congruence. Qed.
+
+Theorem isort_stable_invariant l l' : Permutation l l' -> (forall x, filter (same x) l = filter (same x) l') ->
+  isort leb l = isort leb l'.
+Proof. intros Hp Hf. apply sorted_stable_unique; try apply isort_sorted.
+  - eapply perm_trans; [apply Permutation_sym, isort_perm|]. eapply perm_trans; [exact Hp|]. apply isort_perm.
+  - intros x. rewrite !isort_filter. apply Hf. Qed.
 End SortInv.
 
 (* ---- the byte-wise string order ---- *)
@@ -95,44 +140,6 @@ Proof. intros ->. apply str_eqb_true. reflexivity. Qed.
 Lemma str_eqb_sym_false (a b : str) : a <> b -> str_eqb b a = false.
 Proof. intros H. apply str_eqb_false. intro E. apply H. symmetry. exact E. Qed.
 
-Section Cmd.
-Variable root : str.
-Notation cfile k := (rel_path root (c_file k)).
-
-Lemma cmd_leb_total (a b : command) : cmd_leb root a b = true \/ cmd_leb root b a = true.
-Proof. unfold cmd_leb. destruct (str_eqb (cfile a) (cfile b)) eqn:E.
-  - apply str_eqb_true in E. rewrite (str_eqb_sym_true _ _ E). apply str_leb_total.
-  - apply str_eqb_false in E. rewrite (str_eqb_sym_false _ _ E). apply str_leb_total. Qed.
-
-Lemma cmd_leb_trans (a b c : command) : cmd_leb root a b = true -> cmd_leb root b c = true -> cmd_leb root a c = true.
-Proof. unfold cmd_leb.
-  destruct (str_eqb (cfile a) (cfile b)) eqn:E1; destruct (str_eqb (cfile b) (cfile c)) eqn:E2.
-  - apply str_eqb_true in E1. apply str_eqb_true in E2.
-    assert (H : str_eqb (cfile a) (cfile c) = true) by (apply str_eqb_true; rewrite E1; exact E2).
-    rewrite H. apply str_leb_trans.
-  - apply str_eqb_true in E1. apply str_eqb_false in E2.
-    assert (H : str_eqb (cfile a) (cfile c) = false).
-    { apply str_eqb_false. rewrite E1. exact E2. }
-    rewrite H. intros _ H2. rewrite E1. exact H2.
-  - apply str_eqb_false in E1. apply str_eqb_true in E2.
-    assert (H : str_eqb (cfile a) (cfile c) = false).
-    { apply str_eqb_false. rewrite <- E2. exact E1. }
-    rewrite H. intros H1 _. rewrite <- E2. exact H1.
-  - apply str_eqb_false in E1. apply str_eqb_false in E2.
-    intros H1 H2. destruct (str_eqb (cfile a) (cfile c)) eqn:E3.
-    + apply str_eqb_true in E3. exfalso. apply E1. apply str_leb_antisym; [exact H1|].
-      rewrite E3. exact H2.
-    + eapply str_leb_trans; eauto. Qed.
-
-Definition cmd_key (k : command) : str * str := (cfile k, c_name k).
-
-Lemma cmd_leb_antisym_keys (a b : command) : cmd_leb root a b = true -> cmd_leb root b a = true -> cmd_key a = cmd_key b.
-Proof. unfold cmd_leb, cmd_key. destruct (str_eqb (cfile a) (cfile b)) eqn:E.
-  - apply str_eqb_true in E. rewrite (str_eqb_sym_true _ _ E).
-    intros H1 H2. f_equal; [exact E|]. apply str_leb_antisym; auto.
-  - apply str_eqb_false in E. rewrite (str_eqb_sym_false _ _ E).
-    intros H1 H2. exfalso. apply E. apply str_leb_antisym; auto. Qed.
-
 Lemma nodup_key_inj {A B} (f : A -> B) : forall l, NoDup (map f l) -> forall a b, In a l -> In b l -> f a = f b -> a = b.
 Proof. induction l as [|x l IH]; intros Hnd a b Ha Hb E; [destruct Ha|].
   cbn [map] in Hnd. inversion Hnd as [|? ? Hn Hnd']; subst.
@@ -140,14 +147,23 @@ Proof. induction l as [|x l IH]; intros Hnd a b Ha Hb E; [destruct Ha|].
   - exfalso. apply Hn. rewrite E. apply in_map. exact Hb.
   - exfalso. apply Hn. rewrite <- E. apply in_map. exact Ha. Qed.
 
-(* the command part of the fingerprint does not depend on the discovery order *)
-Theorem fp_cmds_order_independent : forall a a' : analysis,
-  NoDup (map cmd_key (a_cmds a)) -> Permutation (a_cmds a) (a_cmds a') -> fp_cmds root a = fp_cmds root a'.
-Proof. intros a a' Hnd Hp. unfold fp_cmds. f_equal. f_equal.
-  apply isort_perm_invariant; [exact cmd_leb_total|exact cmd_leb_trans| |exact Hp].
-  intros x y Hx Hy H1 H2. eapply nodup_key_inj; eauto. apply cmd_leb_antisym_keys; auto. Qed.
+(* ---- commands: stable sort by the relative file ---- *)
+Lemma cmd_leb_total root (a b : command) : cmd_leb root a b = true \/ cmd_leb root b a = true.
+Proof. apply str_leb_total. Qed.
+Lemma cmd_leb_trans root (a b c : command) : cmd_leb root a b = true -> cmd_leb root b c = true -> cmd_leb root a c = true.
+Proof. apply str_leb_trans. Qed.
 
-End Cmd.
+(* two commands lie in the same file *)
+Definition same_file (root : str) : command -> command -> bool := same command (cmd_leb root).
+
+(* the command part of the fingerprint is the same for two enumerations of the same commands that list the
+   commands of every single file in the same (source) order *)
+Theorem fp_cmds_order_independent : forall root (a a' : analysis),
+  Permutation (a_cmds a) (a_cmds a') ->
+  (forall x, filter (same_file root x) (a_cmds a) = filter (same_file root x) (a_cmds a')) ->
+  fp_cmds root a = fp_cmds root a'.
+Proof. intros root a a' Hp Hf. unfold fp_cmds. f_equal. f_equal.
+  apply isort_stable_invariant; [exact (cmd_leb_total root)|exact (cmd_leb_trans root)|exact Hp|exact Hf]. Qed.
 
 (* ---- structs sorted by name ---- *)
 Lemma struct_leb_total (a b : struct) : struct_leb a b = true \/ struct_leb b a = true.
@@ -179,18 +195,19 @@ Proof. intros H1 H2. apply perm_of_seq in H1. apply perm_of_seq in H2.
   { unfold pick. apply Permutation_map. eapply perm_trans; [apply Permutation_sym; exact H1|exact H2]. }
   unfold analyse. cbn [a_cmds a_structs]. split; apply Permutation_flat_map; exact Hp. Qed.
 
-(* the whole fingerprint is the same under every valid discovery order, for projects whose events are
-   discovered in the same order under both (since C13-sort-before-use the files are analysed in sorted path
+(* the whole fingerprint is the same under every valid discovery order, for projects whose commands of every
+   single file and whose events are discovered in the same order under both (since C13-sort-before-use the files are analysed in sorted path
    order, so the order is in fact unique; events are hashed in discovery order) *)
 Theorem fp_order_independent : forall (p : project) (c : config) (w1 w2 : sched),
   valid_sched w1 p c = true -> valid_sched w2 p c = true ->
-  NoDup (map (cmd_key (g_ppath c)) (a_cmds (analyse w1 p))) -> NoDup (map s_name (a_structs (analyse w1 p))) ->
+  (forall x, filter (same_file (g_ppath c) x) (a_cmds (analyse w1 p)) = filter (same_file (g_ppath c) x) (a_cmds (analyse w2 p))) ->
+  NoDup (map s_name (a_structs (analyse w1 p))) ->
   u_events (analyse w1 p) = u_events (analyse w2 p) ->
   fp w1 p c = fp w2 p c.
 Proof. intros p c w1 w2 V1 V2 Hk Hs He. unfold valid_sched in *.
   apply andb_prop in V1. apply andb_prop in V2. destruct V1 as [V1 _], V2 as [V2 _].
   destruct (analyse_perm w1 w2 p V1 V2) as [Pc Ps]. unfold fp.
-  rewrite (fp_cmds_order_independent _ _ _ Hk Pc), (fp_structs_order_independent _ _ _ Hs Ps), He. reflexivity. Qed.
+  rewrite (fp_cmds_order_independent _ _ _ Pc Hk), (fp_structs_order_independent _ _ _ Hs Ps), He. reflexivity. Qed.
 
 Lemma files_names (p : project) (c : config) (w1 w2 : sched) :
   u_events (analyse w1 p) = u_events (analyse w2 p) -> map fst (files w2 p c) = map fst (files w1 p c).
